@@ -43,7 +43,10 @@ def gen(rng, tier):
            'cb_raise': rng.choice([0, 0, 2, 4]),    # out of 8
            # coroutine callbacks that suspend, with the same ACK repeated
            # right behind the first one
-           'cb_pause': rng.random() < 0.5}
+           'cb_pause': rng.random() < 0.5,
+           # callbacks that use the server again: they emit with another
+           # callback to the same client (chained acknowledgements)
+           'chain': rng.random() < 0.3}
     ops = []
     for p in range(npeers):
         ops.append(['open', p])
@@ -124,6 +127,21 @@ def _run(case, cfg, w):
 
     cb_inv = {}
 
+    def chain_from(tag):
+        """The follow-up emit a chained callback issues."""
+        info = issued.get(tag)
+        if not cfg.get('chain') or cfg.get('malformed_acks') or \
+                info is None or info['kind'] != 'emit' or tag.endswith('c'):
+            return None
+        t2 = tag + 'c'
+        if t2 in issued:
+            return None
+        issued[t2] = {'sid': info['sid'], 'kind': 'emit', 'p': info['p'],
+                      'ns': info['ns']}
+        w.rec.count('app.chained_callback')
+        return srv.emit('q', t2, to=info['sid'], namespace=info['ns'],
+                        callback=make_cb(t2))
+
     def make_cb(tag):
         coroutine = cfg['coro_cb'] and w.mode == 'async'
         def maybe_raise():
@@ -146,11 +164,24 @@ def _run(case, cfg, w):
                 if cfg.get('cb_pause') and not cfg.get('malformed_acks'):
                     await asyncio.sleep(w.choices.pick(
                         'app', (0.0, 0.001, 0.003, 0.02), 'cbpause'))
+                r = chain_from(tag)
+                if r is not None:
+                    await r
                 maybe_raise()
         else:
             def cb(*args):
                 ev = w.rec.add('cb', tag=tag, args=args)
                 cb_log.append((tag, list(args), ev['seq']))
+                if cfg.get('cb_pause') and not cfg.get('malformed_acks') \
+                        and w.mode == 'thread':
+                    # a slow callback: the thread that reads the client's
+                    # transport is busy in it while a repeated ACK arrives
+                    # on another channel
+                    w.kernel.sleep(w.choices.pick(
+                        'app', (0.0, 0.001, 0.003, 0.02), 'cbpause'))
+                r = chain_from(tag)
+                if r is not None and w.mode == 'async':
+                    w.loop.create_task(r)
                 maybe_raise()
         return cb
 
@@ -264,6 +295,7 @@ def _run(case, cfg, w):
             n_cb = len(cb_log)
             n_err = len(w.rec.errors)
             sc.peers[p].send_pkt(sio.ACK, ns, id_, payload)
+            ack_mark = sc.mark()
             if match and cfg.get('cb_pause') and \
                     not cfg.get('malformed_acks') and \
                     not contains_bytes(payload) and \
@@ -274,6 +306,7 @@ def _run(case, cfg, w):
                 sc.peers[p].post_pkts([(sio.ACK, ns, id_, payload)])
                 w.rec.count('fault.duplicate_ack_in_flight')
             w.settle(horizon=0.05)
+            learn_ids(ack_mark, where)       # ids of chained emits
             fired = cb_log[n_cb:]
             if match and payload is None:
                 # malformed input (outside C06's domain, used by the
